@@ -190,6 +190,29 @@ func counterAgreement(c *Ctx, rule string) {
 				whyCnt = "column counter " + v + " is incremented by one somewhere"
 			}
 		}
+		// the rune length is the encoded length: it may only be replaced where it is itself invalid (negative)
+		if lenVar != "" {
+			okLen, whyLen := true, ""
+			ast.Inspect(fd.Body, func(n ast.Node) bool {
+				is, ok := n.(*ast.IfStmt)
+				if !ok {
+					return true
+				}
+				for _, st := range is.Body.List {
+					as, ok := st.(*ast.AssignStmt)
+					if !ok || len(as.Lhs) != 1 || types.ExprString(as.Lhs[0]) != lenVar || as.Tok != token.ASSIGN {
+						continue
+					}
+					be, ok := is.Cond.(*ast.BinaryExpr)
+					if !ok || types.ExprString(be.X) != lenVar || (be.Op != token.LSS && be.Op != token.LEQ) || (types.ExprString(be.Y) != "0" && types.ExprString(be.Y) != "1") {
+						okLen, whyLen = false, "`"+lenVar+" = "+types.ExprString(as.Rhs[0])+"` under the condition `"+types.ExprString(is.Cond)+"`"
+					}
+				}
+				return true
+			})
+			c.check(okLen, rule, key+"|rune-length-is-encoded-length", c.pos(fd.Pos()), lenVar+" is utf8.RuneLen of the rune, replaced only where it is negative",
+				"SourceMap.Add overrides the rune length by "+whyLen+": a validly encoded multi-byte rune (e.g. a literal U+FFFD, which is what `r == utf8.RuneError` also matches) advances the counters by less than its encoded length, so the rest of the line and all later indexes are not mapped to the same bytes")
+		}
 		c.check(okCnt, rule, key+"|counters-advance-together", c.pos(fd.Pos()), "source/target column and index advance by "+lenVar+"; both indexes take the newline step",
 			"SourceMap.Add: "+whyCnt+" — source and target positions drift apart after the first multi-byte character or line")
 	}
